@@ -1231,9 +1231,8 @@ def msm_hostile_frames(ctx):
 class C02(Prop):
     id = "C02"
     module = "C02"
-    theorems = ["C02_layouts_decode_safe", "C02_layout_total", "C02_outcomes", "C02_decode_bytes_total", "C02_stream_total"]
-    partial_note = ("no-panic, termination and the four documented outcomes are proved for every byte string (induction over every layout of the regenerated table, "
-                    "from the totality of Parser::parse); that every decoded floating-point value is finite is not proved in Coq: it is checked by the per-row sweep and the correspondence only")
+    theorems = ["C02_layouts_decode_safe", "C02_layout_total", "C02_outcomes", "C02_decode_bytes_total", "C02_stream_total",
+                "C02_layouts_finite_ok", "C02_finite", "C02_message_finite"]
     rule = ("DECODE in both profiles on CRC-valid frames with hostile payloads for every supported number (random bytes of every length class, all-ones, zeros, MSM masks announcing "
             "0/65/2048 cells at payload lengths that do and do not cover the read, SSR lists with maximal counts, invalid UTF-8, truncated valid bodies, bit-flipped valid bodies) "
             "and ITER on garbage; non-trivial = distinct frames that reach a typed decoder")
